@@ -34,6 +34,7 @@ func checkC11(c *Ctx) {
 	c.rule("C11.R1", "who may write the visit map: in-place updates are `+1` only, in one function called only from the jump executor; whole-map assignments only in the constructor and RestoreAt", 4)
 	c.rule("C11.R2", "a successful jump counts the node being left exactly once, before currentNode is renamed, keyed by currentNode; a failed jump counts nothing", 3)
 	c.rule("C11.R3", "the count update is entailed by: the node found under the key exists and its tracking header is not \"never\"", 2)
+	c.rule("C11.R6", "visited(n) is true exactly when the count is positive: the registered function returns count > 0 for the count looked up in the live visit map, not the presence of the key", 1)
 	c.rule("C11.R4", "visited and visited_count read the runner's live visit map field at call time (not a map captured at registration)", 2)
 	if !m.ok(c, "C11") {
 		return
@@ -302,5 +303,71 @@ func checkC11(c *Ctx) {
 		}
 		// the looked-up key is the closure's parameter
 		c.ob("C11.R4", m.ctor.Name+"/"+name, w.Pos(lit.Pos()), ok, map[bool]string{true: "looks its argument up in runner." + m.fVis.Name() + " loaded at call time", false: "\"" + name + "\" " + bad}[ok])
+		// R6: visited(n) is "the count is positive", not "the map has the key" (a restored snapshot may hold zero counts)
+		if name == "visited" && ok {
+			verdict, how := "undecided", "the result of visited is not recognised as a test of the looked-up count"
+			var classify func(v ssa.Value, depth int)
+			classify = func(v ssa.Value, depth int) {
+				if depth > 6 {
+					return
+				}
+				switch x := v.(type) {
+				case *ssa.Extract:
+					if lk, isLk := x.Tuple.(*ssa.Lookup); isLk && lk.CommaOk && x.Index == 1 {
+						verdict, how = "presence", "visited returns whether the visit map has the key: an entry with count 0 (a restored snapshot may hold one) makes visited true while visited_count is 0"
+					}
+				case *ssa.BinOp:
+					var cnt, cst ssa.Value = x.X, x.Y
+					swapped := false
+					if _, isConst := cnt.(*ssa.Const); isConst {
+						cnt, cst, swapped = x.Y, x.X, true
+					}
+					k, isConst := cst.(*ssa.Const)
+					fromLookup := false
+					switch y := cnt.(type) {
+					case *ssa.Lookup:
+						fromLookup = !y.CommaOk
+					case *ssa.Extract:
+						if _, isLk := y.Tuple.(*ssa.Lookup); isLk && y.Index == 0 {
+							fromLookup = true
+						}
+					}
+					if isConst && fromLookup && k.Value != nil {
+						kv := k.Int64()
+						op := x.Op
+						if swapped { // 0 < count
+							switch op {
+							case token.LSS:
+								op = token.GTR
+							case token.LEQ:
+								op = token.GEQ
+							}
+						}
+						if (op == token.GTR && kv == 0) || (op == token.NEQ && kv == 0) || (op == token.GEQ && kv == 1) {
+							verdict, how = "positive", "visited returns whether the looked-up count is positive"
+						}
+					}
+				case *ssa.Phi:
+					for _, e := range x.Edges {
+						classify(e, depth+1)
+					}
+				}
+			}
+			for _, b := range sf.Blocks {
+				for _, in := range b.Instrs {
+					if r, isRet := in.(*ssa.Return); isRet && len(r.Results) >= 1 {
+						classify(r.Results[0], 0)
+					}
+				}
+			}
+			switch verdict {
+			case "positive":
+				c.ob("C11.R6", m.ctor.Name+"/visited-is-count-positive", w.Pos(lit.Pos()), true, how)
+			case "presence":
+				c.ob("C11.R6", m.ctor.Name+"/visited-is-count-positive", w.Pos(lit.Pos()), false, how)
+			default:
+				c.undecided("C11.R6", how)
+			}
+		}
 	}
 }
